@@ -32,6 +32,7 @@ func init() {
 			{ID: "C19-R6", Title: "results are cached only after their error was checked", Floor: 3, Run: func(c *core.Ctx) { publishBeforeErrorCheck(c) }},
 			{ID: "C19-R7", Title: "MarshalJSON methods quote with encoding/json", Floor: 3, Run: jsonMarshalersUseJSON},
 			{ID: "C19-R8", Title: "limited reads are checked for truncation", Floor: 1, Run: limitedReadsAreChecked},
+			{ID: "C19-R9", Title: "Interface() of a container is never a nil slice or map", Floor: 2, Run: containerInterfaceNotNil},
 		},
 	})
 }
